@@ -245,7 +245,18 @@ fn gen_dobj(t: &mut Tape, depth: usize, min: usize) -> DVal {
     DVal::Obj((0..n).map(|i| (DATA_KEYS[(start + i) % DATA_KEYS.len()].to_string(), gen_dval(t, depth))).collect())
 }
 
-const TEXTS: [&str; 5] = ["plain text", "first line\nsecond line\n", "", "]] tricky ]=] \"q\" \\ 'end'", "tab\there -- not a comment"];
+const TEXTS: [&str; 9] = [
+    "plain text",
+    "first line\nsecond line\n",
+    "",
+    "]] tricky ]=] \"q\" \\ 'end'",
+    "tab\there -- not a comment",
+    // the content is the value, byte for byte: CR LF, a lone CR, leading and trailing blank lines
+    "line one\r\nline two\r\n",
+    "\n\nleading and trailing\n\n",
+    "mac\rline \r\n mixed\n",
+    "caf\u{e9} \u{2603} \u{feff}bom",
+];
 
 // ------------------------------------------------------------------------------------ graph
 
